@@ -978,6 +978,269 @@ theorem removeRxn_effect (y : Sys) (r : Id) :
     fun gg x hx => by simp [removeRxnRaw, hx], rfl, rfl, rfl, rfl, rfl, rfl, rfl, rfl⟩
   simp only [removeRxnRaw, upd]; split <;> simp
 
+/-! ### adding a new reaction -/
+
+/-- putting back what a slot held is exactly the inverse of overwriting it -/
+theorem putSlot_restore (s : St) (r : Id) (b : Bool) (k : RxnSlot) :
+    putSlot (putSlot s r b k) r (s.hasR r) (getSlot s r) = s := by
+  apply St.ext' <;> try rfl
+  · funext x; simp only [putSlot, getSlot, upd]; by_cases h : x = r <;> simp [h]
+  · funext x; simp only [putSlot, getSlot, upd]; by_cases h : x = r <;> simp [h]
+  · funext x; simp only [putSlot, getSlot, upd]; by_cases h : x = r <;> simp [h]
+  · funext x m; simp only [putSlot, getSlot]; by_cases h : x = r <;> simp [h]
+  · funext x; simp only [putSlot, getSlot, upd]; by_cases h : x = r <;> simp [h]
+  · funext x g; simp only [putSlot, getSlot]; by_cases h : x = r <;> simp [h]
+  · funext m x; simp only [putSlot, getSlot]; by_cases h : x = r <;> simp [h]
+  · funext g x; simp only [putSlot, getSlot]; by_cases h : x = r <;> simp [h]
+  · funext x; simp only [putSlot, getSlot, upd]
+    by_cases h : x = r
+    · simp [h]
+    · by_cases h2 : x = s.rev r
+      · simp [h, h2]; intro e; rw [e]
+      · simp [h, h2]
+  · funext x; simp only [putSlot, getSlot, upd]
+    by_cases h : x = r
+    · simp [h]
+    · by_cases h2 : x = s.rev r
+      · simp [h, h2]; intro e; rw [e]
+      · simp [h, h2]
+  · funext x; simp only [putSlot, getSlot, upd]
+    by_cases h : x = r
+    · simp [h]
+    · by_cases h2 : x = s.rev r
+      · simp [h, h2]; intro e; rw [e]
+      · simp [h, h2]
+  · funext m v; simp only [putSlot, getSlot]
+    by_cases h : v = r
+    · simp [h]
+    · by_cases h2 : v = s.rev r
+      · simp [h, h2]; intro e; rw [e]
+      · simp [h, h2]
+  · funext x; simp only [putSlot, getSlot, upd]
+    by_cases h : x = r
+    · simp [h]
+    · by_cases h2 : x = s.rev r
+      · simp [h, h2]; intro e; rw [e]
+      · simp [h, h2]
+
+theorem stOf_ne_zero_mem (ps : List (Id × Rat)) (m : Id) (h : stOf ps m ≠ 0) : ∃ p ∈ ps, p.1 = m := by
+  unfold stOf at h
+  cases hf : ps.find? (fun p => p.1 == m) with
+  | none => simp [hf] at h
+  | some p =>
+    refine ⟨p, List.mem_of_find?_eq_some hf, ?_⟩
+    have := List.find?_some hf
+    simpa using this
+
+/-- what the decidable side condition of `apply` gives -/
+structure Fresh (s : St) (r : Id) : Prop where
+  self : s.rev r ≠ r
+  other : ∀ x, s.hasR x = true → s.rev x ≠ r ∧ s.rev r ≠ x ∧ s.rev x ≠ s.rev r
+
+theorem fresh_of_freshNames {s : St} (w : WF s) (r : Id) (h : freshNames s r = true) : Fresh s r := by
+  simp only [freshNames, Bool.and_eq_true, decide_eq_true_eq, List.all_eq_true, Bool.or_eq_true, Bool.not_eq_true'] at h
+  refine ⟨h.1, ?_⟩
+  intro x hx
+  rcases h.2 x (w.inUniv x hx) with h' | h'
+  · rw [hx] at h'; cases h'
+  · exact ⟨h'.1.1, h'.1.2, h'.2⟩
+
+theorem addRxnRaw_good {s : St} (g : Good s) (r : Id) (lb ub : EB) (ps : List (Id × Rat))
+    (hnew : s.hasR r = false) (hle : EB.le lb ub = true) (hu : r ∈ s.univR) (fr : Fresh s r)
+    (hm : ∀ p ∈ ps, s.hasM p.1 = true) : Good (addRxnRaw s r lb ub ps) := by
+  have ns := g.ns
+  have w := g.wf
+  have sy := g.sync
+  have hrev : (addRxnRaw s r lb ub ps).rev = s.rev := rfl
+  -- membership after the addition
+  have hR : ∀ x, (addRxnRaw s r lb ub ps).hasR x = true → x = r ∨ (x ≠ r ∧ s.hasR x = true) := by
+    intro x hx
+    simp only [addRxnRaw, putSlot, upd] at hx
+    by_cases hxr : x = r
+    · exact Or.inl hxr
+    · simp only [hxr, if_false] at hx; exact Or.inr ⟨hxr, hx⟩
+  have hRr : (addRxnRaw s r lb ub ps).hasR r = true := by simp [addRxnRaw, putSlot, upd]
+  have hRo : ∀ x, x ≠ r → (addRxnRaw s r lb ub ps).hasR x = s.hasR x := by intro x hx; simp [addRxnRaw, putSlot, upd, hx]
+  have hne : ∀ x, s.hasR x = true → x ≠ r := fun x hx e => by rw [e, hnew] at hx; cases hx
+  refine ⟨⟨?_, ?_⟩, ?_, ?_⟩
+  · -- rev_ne
+    intro a b ha hb
+    rw [hrev]
+    rcases hR a ha with rfl | ⟨_, ha'⟩ <;> rcases hR b hb with rfl | ⟨_, hb'⟩
+    · exact fr.self
+    · exact (fr.other b hb').2.1
+    · exact (fr.other a ha').1
+    · exact ns.rev_ne a b ha' hb'
+  · -- rev_inj
+    intro a b ha hb hab
+    rw [hrev] at hab
+    rcases hR a ha with rfl | ⟨_, ha'⟩ <;> rcases hR b hb with rfl | ⟨_, hb'⟩
+    · rfl
+    · exact absurd hab.symm (fr.other b hb').2.2
+    · exact absurd hab (fr.other a ha').2.2
+    · exact ns.rev_inj a b ha' hb' hab
+  · constructor
+    · -- mr_iff
+      intro m x hm' hx
+      rcases hR x hx with rfl | ⟨hxr, hx'⟩
+      · simp [addRxnRaw, putSlot, newSlot]
+      · have := w.mr_iff m x hm' hx'
+        simpa [addRxnRaw, putSlot, hxr] using this
+    · -- st_has
+      intro x m hx hst
+      rcases hR x hx with rfl | ⟨hxr, hx'⟩
+      · have : stOf ps m ≠ 0 := by simpa [addRxnRaw, putSlot, newSlot] using hst
+        obtain ⟨p, hp, rfl⟩ := stOf_ne_zero_mem ps m this
+        exact hm p hp
+      · have : s.st x m ≠ 0 := by simpa [addRxnRaw, putSlot, hxr] using hst
+        exact w.st_has x m hx' this
+    · -- rg_rule
+      intro x gg hx
+      rcases hR x hx with rfl | ⟨hxr, hx'⟩
+      · simp [addRxnRaw, putSlot, newSlot, upd, genesOpt]
+      · have := w.rg_rule x gg hx'
+        simpa [addRxnRaw, putSlot, upd, hxr] using this
+    · -- gr_iff
+      intro gg x hg hx
+      rcases hR x hx with rfl | ⟨hxr, hx'⟩
+      · simp [addRxnRaw, putSlot, newSlot]
+      · have := w.gr_iff gg x hg hx'
+        simpa [addRxnRaw, putSlot, hxr] using this
+    · -- rg_has
+      intro x gg hx h
+      rcases hR x hx with rfl | ⟨hxr, hx'⟩
+      · simp [addRxnRaw, putSlot, newSlot] at h
+      · have : s.rg x gg = true := by simpa [addRxnRaw, putSlot, hxr] using h
+        exact w.rg_has x gg hx' this
+    · -- bounds
+      intro x hx
+      rcases hR x hx with rfl | ⟨hxr, hx'⟩
+      · simpa [addRxnRaw, putSlot, newSlot, upd] using hle
+      · have := w.bounds x hx'
+        simpa [addRxnRaw, putSlot, upd, hxr] using this
+    · -- inUniv
+      intro x hx
+      rcases hR x hx with rfl | ⟨_, hx'⟩
+      · exact hu
+      · exact w.inUniv x hx'
+    · -- gr_has
+      intro gg x hg h
+      by_cases hxr : x = r
+      · subst hxr; exact hRr
+      · have : s.gr gg x = true := by simpa [addRxnRaw, putSlot, hxr] using h
+        rw [hRo x hxr]; exact w.gr_has gg x hg this
+    · -- mr_has
+      intro m x hm' h
+      by_cases hxr : x = r
+      · subst hxr; exact hRr
+      · have : s.mr m x = true := by simpa [addRxnRaw, putSlot, hxr] using h
+        rw [hRo x hxr]; exact w.mr_has m x hm' this
+  · -- Sync
+    have hVr : s.hasV r = false := by
+      cases hv : s.hasV r with
+      | false => rfl
+      | true =>
+        obtain ⟨x, hx, hvx⟩ := (sy.vars r).mp hv
+        rcases hvx with e | e
+        · exact absurd e.symm (hne x hx)
+        · exact absurd e.symm (fr.other x hx).1
+    constructor
+    · -- vars
+      intro v
+      simp only [addRxnRaw, putSlot, newSlot, upd]
+      constructor
+      · intro hv
+        by_cases h1 : v = r
+        · exact ⟨r, by simp, Or.inl h1⟩
+        · by_cases h2 : v = s.rev r
+          · exact ⟨r, by simp, Or.inr h2⟩
+          · simp only [h1, h2, if_false] at hv
+            obtain ⟨x, hx, hvx⟩ := (sy.vars v).mp hv
+            exact ⟨x, by simp [hne x hx, hx], hvx⟩
+      · rintro ⟨x, hx, hvx⟩
+        by_cases hxr : x = r
+        · subst hxr
+          rcases hvx with e | e
+          · simp [e]
+          · by_cases h1 : v = x
+            · simp [h1]
+            · simp [h1, e]
+        · simp only [hxr, if_false] at hx
+          have hv : s.hasV v = true := (sy.vars v).mpr ⟨x, hx, hvx⟩
+          by_cases h1 : v = r
+          · simp [h1]
+          · by_cases h2 : v = s.rev r <;> simp [h1, h2, hv]
+    · -- box
+      intro x hx
+      rcases hR x hx with rfl | ⟨hxr, hx'⟩
+      · have h1 : s.rev x ≠ x := fr.self
+        simp [addRxnRaw, putSlot, newSlot, upd, h1]
+      · have a1 := (fr.other x hx').1
+        have a2 := (fr.other x hx').2.1
+        have a3 := (fr.other x hx').2.2
+        have := sy.box x hx'
+        have e2 : x ≠ s.rev r := fun e => a2 e.symm
+        simpa [addRxnRaw, putSlot, upd, hxr, a1, e2, a3] using this
+    · exact sy.rows
+    · -- coef
+      intro m x hm' hx
+      rcases hR x hx with rfl | ⟨hxr, hx'⟩
+      · have h1 : s.rev x ≠ x := fr.self
+        simp [addRxnRaw, putSlot, newSlot, h1]
+      · have a1 := (fr.other x hx').1
+        have a2 := (fr.other x hx').2.1
+        have a3 := (fr.other x hx').2.2
+        have e2 : x ≠ s.rev r := fun e => a2 e.symm
+        have := sy.coef m x hm' hx'
+        simpa [addRxnRaw, putSlot, hxr, a1, e2, a3] using this
+    · -- objrev
+      intro x hx
+      rcases hR x hx with rfl | ⟨hxr, hx'⟩
+      · have h1 : s.rev x ≠ x := fr.self
+        simp [addRxnRaw, putSlot, newSlot, upd, h1]
+      · have a1 := (fr.other x hx').1
+        have a2 := (fr.other x hx').2.1
+        have a3 := (fr.other x hx').2.2
+        have e2 : x ≠ s.rev r := fun e => a2 e.symm
+        have := sy.objrev x hx'
+        simpa [addRxnRaw, putSlot, upd, hxr, a1, e2, a3] using this
+
+theorem addRxn_step (y : Sys) (g : Good y.s) (r : Id) (lb ub : EB) (ps : List (Id × Rat))
+    (hnew : y.s.hasR r = false) (hle : EB.le lb ub = true) (hu : r ∈ y.s.univR) (fr : Fresh y.s r)
+    (hm : ∀ p ∈ ps, y.s.hasM p.1 = true) : Step y (addRxn y r lb ub ps) := by
+  have hgood := addRxnRaw_good g r lb ub ps hnew hle hu fr hm
+  unfold addRxn
+  cases hc : y.ctx with
+  | nil =>
+    have hin : inCtx y = false := by simp [inCtx, hc]
+    simp only [hin, Bool.false_eq_true, if_false]
+    exact ⟨hgood, by simp [hc]⟩
+  | cons c cs =>
+    have hin : inCtx y = true := by simp [inCtx, hc]
+    simp only [hin, if_true, push]
+    refine ⟨hgood, ?_⟩
+    simp only [hc]
+    refine ⟨[.putSlot r (y.s.hasR r) (getSlot y.s r)], by simp, ?_⟩
+    simp only [Undoes, replay, runUndo, addRxnRaw, putSlot_restore]
+
+/-- what `add_reactions([R])` does for a new reaction, and what it leaves alone -/
+theorem addRxn_effect (y : Sys) (r : Id) (lb ub : EB) (ps : List (Id × Rat)) :
+    let s' := (addRxn y r lb ub ps).s
+    s'.hasR r = true ∧ s'.lb r = lb ∧ s'.ub r = ub ∧ (∀ m, s'.st r m = stOf ps m) ∧ s'.rule r = none ∧ s'.obj r = 0 ∧
+    (∀ x, x ≠ r → s'.hasR x = y.s.hasR x ∧ s'.lb x = y.s.lb x ∧ s'.ub x = y.s.ub x ∧ s'.rule x = y.s.rule x ∧
+      (∀ m, s'.st x m = y.s.st x m) ∧ (∀ m, s'.mr m x = y.s.mr m x) ∧ (∀ gg, s'.gr gg x = y.s.gr gg x)) ∧
+    s'.hasM = y.s.hasM ∧ s'.hasG = y.s.hasG ∧ s'.gf = y.s.gf ∧ s'.dirMax = y.s.dirMax := by
+  have hs : (addRxn y r lb ub ps).s = addRxnRaw y.s r lb ub ps := by
+    unfold addRxn; split <;> rfl
+  show _ ∧ _
+  rw [hs]
+  refine ⟨by simp [addRxnRaw, putSlot, upd], by simp [addRxnRaw, putSlot, newSlot, upd], by simp [addRxnRaw, putSlot, newSlot, upd],
+    fun m => by simp [addRxnRaw, putSlot, newSlot], by simp [addRxnRaw, putSlot, newSlot, upd], by simp [addRxnRaw, putSlot, newSlot, upd],
+    fun x hx => ⟨by simp [addRxnRaw, putSlot, upd, hx], by simp [addRxnRaw, putSlot, upd, hx], by simp [addRxnRaw, putSlot, upd, hx],
+      by simp [addRxnRaw, putSlot, upd, hx], fun m => by simp [addRxnRaw, putSlot, hx], fun m => by simp [addRxnRaw, putSlot, hx],
+      fun gg => by simp [addRxnRaw, putSlot, hx]⟩, rfl, rfl, rfl, rfl⟩
+
+
 /-- operations other than entering / leaving a context -/
 def Op.plain : Op → Bool
   | .enter => false
@@ -1007,6 +1270,22 @@ theorem apply_step (y : Sys) (g : Good y.s) (op : Op) (hp : op.plain = true) (ho
   | setDir d => exact setDir_step y g d
   | addMets r ps c n => simp only [apply]; split; exact addMets_step y g r ‹_› ps c n hok; exact Step.refl g
   | removeRxn r => simp only [apply]; split; exact removeRxn_step y g r ‹_›; exact Step.refl g
+  | addRxn r lb ub ps =>
+    simp only [apply]
+    split
+    · exact Step.refl g
+    · rename_i hlt
+      split
+      · exact Step.refl g
+      · rename_i hnew
+        split
+        · rename_i hcond
+          simp only [Bool.and_eq_true, decide_eq_true_eq, List.all_eq_true] at hcond
+          have hnew' : y.s.hasR r = false := by simpa using hnew
+          have hle : EB.le lb ub = true := EB.not_lt_le (by simpa using hlt)
+          exact addRxn_step y g r lb ub ps hnew' hle hcond.1.1 (fresh_of_freshNames g.wf r hcond.1.2)
+            (fun p hp => (hcond.2 p hp).1)
+        · exact Step.refl g
   | enter => cases hp
   | exit => cases hp
 
